@@ -15,6 +15,7 @@ import ast
 from typing import Iterable, List, Optional
 
 from sa.report import where
+from sa.loader import dotted_name, norm_text
 
 
 def _norm(n: str) -> str:
@@ -185,6 +186,7 @@ def run_for(ctx, rep, prop: str, floor: int):
     self_check()
     n = check_constructor_binding(ctx, rep, rule, SCOPES[prop], floor)
     rep.analysed[f'constructor_calls_bound'] = n
+    rep.analysed['factories_with_key_flow_checked'] = check_json_keys_reach_their_parameters(ctx, rep, rule, SCOPES[prop])
     return n
 
 
@@ -238,4 +240,122 @@ def check_json_defaults(ctx, rep, rule: str, only=None) -> int:
                 rep.check(rule, f"{ci.qualname}.from_json::default-of-{pname}", same, where(ci.module, gets[var]), {'json_default': repr(jd), 'constructor_default': repr(cd)},
                           f"{ci.name}.from_json reads `{norm_text(gets[var])[:50]}` and hands it to the constructor parameter `{pname}`, whose own default is {cd!r}: a specification that does "
                           f"not mention the option builds an object configured with {jd!r} where the constructor (and its documentation) means {cd!r}")
+    return n
+
+
+# ---------------------------------------------------------------------------
+# the value read from JSON key K reaches the constructor parameter K
+# ---------------------------------------------------------------------------
+KEYFLOW_POSITIVE = '''
+class A:
+    def __init__(self, id_, tree, ratios=None, shifts=None):
+        pass
+    @classmethod
+    def from_json(cls, data, dic):
+        if 'shifts' in data:
+            parameters = process_object(data['shifts'], dic)
+        else:
+            parameters = process_object(data['ratios'], dic)
+        return cls(data['id'], tree, parameters)
+    @classmethod
+    def from_json2(cls, data, dic):
+        if 'shifts' in data:
+            parameters = process_object(data['shifts'], dic)
+            return cls(data['id'], tree, shifts=parameters)
+        parameters = process_object(data['ratios'], dic)
+        return cls(data['id'], tree, parameters)
+'''
+
+
+def _json_key_of(v, data_name):
+    """K for `process_object*(data['K'], …)`, `data['K']`, `data.get('K', …)`"""
+    if isinstance(v, ast.Call) and (dotted_name(v.func) or '').split('.')[-1].startswith('process_object') and v.args:
+        return _json_key_of(v.args[0], data_name)
+    if isinstance(v, ast.Subscript) and isinstance(v.value, ast.Name) and v.value.id == data_name and isinstance(v.slice, ast.Constant) and isinstance(v.slice.value, str):
+        return v.slice.value
+    if isinstance(v, ast.Call) and isinstance(v.func, ast.Attribute) and v.func.attr == 'get' and isinstance(v.func.value, ast.Name) and v.func.value.id == data_name \
+            and v.args and isinstance(v.args[0], ast.Constant) and isinstance(v.args[0].value, str):
+        return v.args[0].value
+    return None
+
+
+def key_flow_mismatches(fn: ast.FunctionDef, init: ast.FunctionDef):
+    """(definition, call, K, P): a local read from JSON key K — K being a constructor parameter — that reaches a `cls(…)` call (no redefinition in between) in the slot of
+    another parameter P"""
+    from sa.cfg import CFG
+    if len(fn.args.args) < 2:
+        return []
+    data_name = fn.args.args[1].arg
+    params = [a.arg for a in init.args.args][1:]
+    names = set(params) | {a.arg for a in init.args.kwonlyargs}
+    defs = {}
+    for st in ast.walk(fn):
+        if isinstance(st, ast.Assign) and len(st.targets) == 1 and isinstance(st.targets[0], ast.Name):
+            defs.setdefault(st.targets[0].id, []).append(st)
+    out = []
+    cfg = None
+    for v, sts in defs.items():
+        for st in sts:
+            K = _json_key_of(st.value, data_name)
+            if K is None or K not in names:
+                continue
+            for c in ast.walk(fn):
+                if not (isinstance(c, ast.Call) and isinstance(c.func, ast.Name) and c.func.id == 'cls'):
+                    continue
+                P = None
+                for i, a in enumerate(c.args):
+                    if isinstance(a, ast.Name) and a.id == v and i < len(params):
+                        P = params[i]
+                for k in c.keywords:
+                    if isinstance(k.value, ast.Name) and k.value.id == v and k.arg is not None:
+                        P = k.arg
+                if P is None or P == K:
+                    continue
+                # does THIS definition reach the call?
+                if cfg is None:
+                    cfg = CFG(fn)
+                holder = c
+                while holder is not None and not isinstance(holder, ast.stmt):
+                    holder = getattr(holder, '_parent', None)
+                try:
+                    dn, cn = cfg.node_of(st), cfg.node_of(holder)
+                    others = {cfg.node_of(o).id for o in sts if o is not st}
+                except (KeyError, AttributeError):
+                    continue
+                if cn.id in cfg.reachable_after(dn, others):
+                    out.append((st, c, K, P))
+    return out
+
+
+def check_json_keys_reach_their_parameters(ctx, rep, rule: str, prefixes) -> int:
+    t = ast.parse(KEYFLOW_POSITIVE)
+    for par in ast.walk(t):
+        for ch in ast.iter_child_nodes(par):
+            ch._parent = par
+    init, f1, f2 = t.body[0].body[0], t.body[0].body[1], t.body[0].body[2]
+    if [(k, p) for _, _, k, p in key_flow_mismatches(f1, init)] != [('shifts', 'ratios')] or key_flow_mismatches(f2, init):
+        from sa.loader import AnalysisError
+        raise AnalysisError('JSON-key-flow self-check failed')
+    n = 0
+    for mname, m in sorted(ctx.prog.modules.items()):
+        if not any(mname.startswith(p) or mname == p.rstrip('.') for p in prefixes):
+            continue
+        for cname, cnode in m.classes.items():
+            ci = ctx.classes.find(f"{mname}.{cname}")
+            if ci is None:
+                continue
+            for fn in [b for b in cnode.body if isinstance(b, ast.FunctionDef) and b.name in ('from_json', '_from_json')]:
+                r = ci.resolve('__init__')
+                if not r:
+                    continue
+                n += 1
+                bad = key_flow_mismatches(fn, r[1])
+                key = f"{mname.replace('torchtree.', '')}::{cname}.{fn.name}::json-keys-reach-the-parameters-they-name"
+                if bad:
+                    st, c, K, P = bad[0]
+                    rep.bad(rule, key, where(m, c), {'key': K, 'slot': P},
+                            f"{cname}.{fn.name} reads `{norm_text(st)[:50]}` and hands it to the constructor as `{P}`: the class has a parameter `{K}` for it, so the specification's "
+                            f"'{K}' is built as a {P} (another parameterisation, another transform) without any error")
+                else:
+                    rep.ok(rule, key, where(m, fn), None)
     return n
